@@ -45,7 +45,7 @@ for pid, tech, text in [
   "Theorems in coq/Properties/Properties_C07.v; pairing order, endpoint views, refusal delay and close-stops-listening are checked on every scenario by trace equality and the oracle."),
  ("C08", "Coq proof (receive queue over all histories of arrivals and receives: handed out ++ queued = accepted arrivals, a subsequence of the arrivals, in order and at most once; each receive returns one whole datagram cut to the buffers with its sender; byte account = bytes queued so a drained reader loses nothing; send_to rejection table; refusal only when the buffer is full; close discards) + whole-scenario trace equality",
   "Theorems in coq/Properties/Properties_C08.v; at-most-once/right-socket/order over whole scenarios by trace equality with the composite model."),
- ("C11", "Coq proof (registry as a map with unique keys: decision table, exclusivity, ephemeral port free, wildcard = first of family, TCP/UDP independent, release of own binding only) + trace equality + reference-registry oracle after every step",
+ ("C11", "Coq proof (over every history of binds and releases the registry refines a partial function endpoint -> socket: at most one socket per endpoint, a bind succeeds only on a free endpoint and then holds it, a failed bind and a release of somebody else's binding change nothing; registry as a map with unique keys: decision table, exclusivity, ephemeral port free, wildcard = first of family, TCP/UDP independent, release of own binding only) + trace equality + reference-registry oracle after every step",
   "Theorems in coq/Properties/Properties_C11.v for every registry state with unique keys and every request."),
  ("C13", "Coq proof (NAT changes the source address only; the connection record only for the connector's SYN; over whole routes: any chain of NAT hops is crossed in the same step and leaves kind, bytes, number, port, remaining route and every socket/registry untouched, the source address becoming the last NAT's; the last hop delivers in the same step) + whole-scenario trace equality + endpoint-view oracle",
   "Theorems in coq/Properties/Properties_C13.v."),
